@@ -205,7 +205,12 @@ def rigid_case_input(rng, kit, multi):
 
 
 POLY = [("x*x+1", lambda x: x * x + 1), ("2x-1", lambda x: 2 * x - 1),
-        ("conj", lambda x: x.conjugate()), ("x^3", lambda x: x ** 3)]
+        ("conj", lambda x: x.conjugate()), ("x^3", lambda x: x ** 3),
+        # functions whose return TYPE depends on the entry (int for some
+        # entries, float/complex for others): an elementwise map must not let
+        # the first entry decide the type of all the others
+        ("relu", lambda x: x if complex(x).real > 0 else 0),
+        ("clip", lambda x: 1 if abs(x) > 1 else x / 2)]
 
 
 def as_dim(ty):
